@@ -123,6 +123,13 @@ func modeC03(e *Env) {
 	n := e.N(30, 400)
 	for i := 0; i < n; i++ {
 		l := GenLog(e.R, cfgs[i%len(cfgs)], gp, baseSets[i%len(baseSets)])
+		if i%5 == 4 {
+			// file switches directly followed by every kind of transaction: one opened by BEGIN, an autocommitted DDL, rows
+			// without BEGIN, a statement
+			g2 := gp
+			l = logFromAbstractBases(e.R, cfgs[i%len(cfgs)], g2, []interface{}{"txxid", "rotate", "ddl", "txxid", "rotate", "autorow", "stmtdml",
+				"rotate", "txcommit", "rotate", "stmtdml", "txrollback"}, baseSets[i%len(baseSets)])
+		}
 		bs := l.Boundaries()
 		start := bs[0]
 		if i%4 == 3 {
@@ -135,6 +142,11 @@ func modeC03(e *Env) {
 
 // unitsFromAbstract concretises a TLC-generated unit sequence (strings of C02's alphabet).
 func logFromAbstract(r *rand.Rand, cfg WireCfg, gp GenParams, units []interface{}) *Log {
+	return logFromAbstractBases(r, cfg, gp, units, nil)
+}
+
+// logFromAbstractBases: the same with per-file offset bases (offsets near 2^31 / 2^32).
+func logFromAbstractBases(r *rand.Rand, cfg WireCfg, gp GenParams, units []interface{}, bases []uint32) *Log {
 	l := &Log{Cfg: cfg}
 	var tables []*Table
 	for i := 0; i < 2; i++ {
@@ -142,6 +154,9 @@ func logFromAbstract(r *rand.Rand, cfg WireCfg, gp GenParams, units []interface{
 	}
 	ts := uint32(1600000000)
 	f := &LogFile{Name: "mysql-bin.000001"}
+	if len(bases) > 0 {
+		f.Base = bases[0]
+	}
 	l.Files = append(l.Files, f)
 	for _, ui := range units {
 		k := ui.(string)
@@ -149,6 +164,9 @@ func logFromAbstract(r *rand.Rand, cfg WireCfg, gp GenParams, units []interface{
 		case "rotate":
 			f.Units = append(f.Units, genUnit(r, k, tables, gp, &ts, cfg.Gtid))
 			f = &LogFile{Name: "mysql-bin." + pad6(len(l.Files)+1)}
+			if len(bases) > len(l.Files) {
+				f.Base = bases[len(l.Files)]
+			}
 			l.Files = append(l.Files, f)
 		case "gtid", "anongtid", "prevgtids", "heartbeat", "unknownev", "unknownstmt":
 			u := &Unit{U: "ign"}
@@ -365,6 +383,27 @@ func faultPlans(l *Log, start Pos, pacing string, stride int, r *rand.Rand) []At
 	return out
 }
 
+// invalidPacketKinds: one packet of every malformed kind - empty, shorter than five bytes, shorter than a header, truncated and
+// over-long events of the types the parser looks at first (ROTATE, FORMAT_DESCRIPTION, XID), length fields 0 and 2^32-1.
+func invalidPacketKinds(r *rand.Rand) [][]byte {
+	var out [][]byte
+	xid := mkEvent(1600000000, tXid, 1, 500, 0, le64(99), false)
+	rot := mkEvent(0, tRotate, 1, 0, 0x20, rotateBody(4, "mysql-bin.000009"), false)
+	fde := mkEvent(1600000000, tFormatDesc, 1, 0, 0, fdeBody(allCfgs()[0], 1600000000, 0), true)
+	out = append(out, []byte{}, xid[:1+r.Intn(4)], rot[:1+r.Intn(4)], xid[:5+r.Intn(14)], rot[:5+r.Intn(14)])
+	for _, ev := range [][]byte{xid, rot, fde} {
+		out = append(out, ev[:19+r.Intn(len(ev)-19)], append(append([]byte{}, ev...), randBytes(r, 1+r.Intn(9))...))
+	}
+	for _, lf := range [][4]byte{{0, 0, 0, 0}, {0xff, 0xff, 0xff, 0xff}} {
+		b := append([]byte{}, rot...)
+		b[9], b[10], b[11], b[12] = lf[0], lf[1], lf[2], lf[3]
+		out = append(out, b)
+	}
+	g := randBytes(r, 5+r.Intn(40))
+	g[4] = tRotate // garbage that claims to be a ROTATE event
+	return append(out, g)
+}
+
 // invalidPacket builds a packet the validity gate must reject: truncated, over-long, or garbage.
 func invalidPacket(r *rand.Rand) []byte {
 	ev := mkEvent(1600000000, tXid, 1, 500, 0, le64(99), false)
@@ -420,7 +459,11 @@ func modeC04(e *Env) {
 		}
 		if li%3 == 1 {
 			// an empty file name is a valid position too (the master takes it as its first binlog): the library keeps
-			// the name it was given until a real rotation
+			// the name it was given until a real rotation; a single file with several transactions, so that every retry
+			// still happens under the empty name
+			g2 := gp
+			g2.SimpleCols = true
+			l = logFromAbstract(e.R, cfg, g2, []interface{}{"txxid", "ddl", "txcommit", "autorow", "txxid", "stmtdml"})
 			l.Files[0].Name = ""
 			l.Layout()
 		}
@@ -550,12 +593,22 @@ func modeC17Stream(e *Env) {
 		start := l.Boundaries()[0]
 		npk, _ := servedInfo(l, start)
 		for i := 0; i <= npk; i++ {
-			for rep := 0; rep < e.N(2, 6); rep++ {
+			// before the format description is known (indices 0 and 1) and right after it (2) every kind of malformed packet
+			// is tried; elsewhere a few random ones
+			var raws [][]byte
+			if i <= 2 {
+				raws = invalidPacketKinds(e.R)
+			} else {
+				for rep := 0; rep < e.N(2, 6); rep++ {
+					raws = append(raws, invalidPacket(e.R))
+				}
+			}
+			for rep, raw := range raws {
 				a := defaultAttempt()
 				if rep%2 == 1 {
 					a.Pacing = "lockstep"
 				}
-				a.Inject = &Inject{Kind: "invalid", At: i, Raw: invalidPacket(e.R)}
+				a.Inject = &Inject{Kind: "invalid", At: i, Raw: raw}
 				id++
 				RunStreamScenario(e.Rec, &StreamScenario{ID: id, Fam: "c17", Log: l, Start: start, ServerID: 5,
 					Attempts: []AttemptPlan{a, defaultAttempt()}, Note: "inject"})
